@@ -113,9 +113,7 @@ def run():
             ck.coverage.setdefault("translator_error", []).append(inf["error"])
 
     def cl_names(case):
-        # F18, F32, F31, F33 are FIXED (68466ba, b5c2cd4, 75c6718, 99a89d3): nothing excuses them any more
-        if case.get("kind") == "e2e" and not dinfo.get("col_names_reserved") and f33b_case(case, dinfo.get("col_prefix", "_expr_")):
-            return "F33b-generated-column-name-case-clash"
+        # F18, F32, F31, F33, F33b are FIXED (68466ba, b5c2cd4, 75c6718, 99a89d3, 6cdd79f): nothing excuses them any more
         return None
 
     # ------------------------------------------------------------ names
